@@ -18,3 +18,5 @@ UNITS += [VIO.unit_raw_rows().also("C06"), OD.unit_ods_rows().also("C06"), XL.un
 from props import _groups as _G
 UNITS = _G.with_groups(PROPERTY, UNITS, _G.READERS, _G.VALIDATION, _G.CHECKS)
 UNITS += [OD.unit_ods_audit()]
+from contracts import hostile as HO
+UNITS += [HO.unit_hostile_data()]
